@@ -825,7 +825,15 @@ impl<'a> Ctx<'a> {
                 if !p.faults.is_empty() || w.has_bg_hold || p.killed.map(|k| p.exit_seq > k.2).unwrap_or(false) {
                     continue;
                 }
-                let ended_before = p.exit.as_ref().map(|e| e.0 <= ce.0).unwrap_or(false);
+                // (strictly before: a command that ends at the very instant its limit expires may be
+                // reported either way - an exact tie)
+                // (... unless no limit was due at that instant: then the "timeout" is spurious)
+                let due = p.comm_begin.as_ref().and_then(|cb| cb.2.map(|l| cb.0.saturating_add(l)));
+                let ended_before = p
+                    .exit
+                    .as_ref()
+                    .map(|e| e.0 < ce.0 || (e.0 == ce.0 && due.map(|d| ce.0 < d).unwrap_or(true)))
+                    .unwrap_or(false);
                 let lost = ended_before && (ce.2 == "timed_out" || ce.2.starts_with("err:BrokenPipe"));
                 if lost && !matches!(raw.exit, ExitObs::Code { .. }) {
                     out.push(v(
